@@ -14,6 +14,7 @@ ops (TAB separated, strings hex):
   invoke <prefix> <channel|~> <plugin> <command list> <spec: kind:hexarg,...|-> <allowExtra 0|1> <args list>
          (unmodelled converters behave as the identity)
   ignored <prefix>
+  received <prefix> <channel|~> <lobotomized 0|1> <bans: exp:hexpattern,...|-> <ignores: same>   (the record of that channel)
   cfg <prefix> <channel|~> <allowShell 0|1> <parts list> <partsLower list> <non-op-settable prefixes: hex.hex.hex,...|->
   setdefaults <allowDefaultOwner 0|1> <caps>
   canon <name>
@@ -129,6 +130,15 @@ def step (s : DState) : List String → DState × String
           | .ok false => "0"
           | .error e => "crash\t" ++ encErr e)
     | none => (s, "bad-op")
+  | ["received", p, ch, lob, bans, igns] =>
+    match dec p, decOpt ch, decBool lob, decAuth bans, decAuth igns with
+    | some p, some ch, some lob, some bans, some igns =>
+      let rec_ : ChanIgn := { lobotomized := lob, bans := bans.map (fun x => (x.2, x.1)), ignores := igns.map (fun x => (x.2, x.1)) }
+      (s, match received s.db s.ig s.defaultIgnore s.now p ch (fun _ => rec_) with
+          | .silent => "silent"
+          | .dispatch => "dispatch"
+          | .crashed e => "crash\t" ++ encErr e)
+    | _, _, _, _, _ => (s, "bad-op")
   | ["cfg", p, ch, sh, parts, partsLower, nons] =>
     match dec p, decOpt ch, decBool sh, decList parts, decList partsLower, decPaths nons with
     | some p, some ch, some sh, some parts, some partsLower, some nons =>
